@@ -56,7 +56,8 @@ static void one_case(const cons *C, size_t mlen, size_t adlen, int pat)
     memset(dm, 0xA5, mlen + 64);
     r = C->decd(dm, c_ref, mlen, tag_ref, adp, adlen, nonce, &kc);
     if (r != 0 || memcmp(dm, m, mlen) || dm[mlen] != 0xA5) BAD("detached", "detached decrypt of the reference ciphertext failed");
-    if (C->null_m_verify) { r = C->decd(NULL, c_ref, mlen, tag_ref, adp, adlen, nonce, &kc); if (r != 0) BAD("verify-only", "m=NULL verification of a valid ciphertext failed"); }
+    if (C->null_m_verify) { int x2; r = C->decd(NULL, c_ref, mlen, tag_ref, adp, adlen, nonce, &kc); if (r != 0) BAD("verify-only", "m=NULL verification of a valid ciphertext failed");
+        for (x2 = 0; x2 < C->nx; x2++) if (!strstr(C->x[x2].name, "nacl")) { r = C->x[x2].dec(NULL, c_ref, mlen, tag_ref, adp, adlen, nonce, &kc); if (r != 0) BAD(C->x[x2].name, "m=NULL verification of a valid ciphertext failed"); } }
     /* zero-length arguments given as NULL pointers (allowed by the prototypes) must give the same result as non-NULL empty buffers */
     if (mlen == 0 && !C->is_box) {
         memset(out, 0xA5, 128); ol = 4321;
